@@ -201,3 +201,40 @@ theorem get?_insert_ne {α} (m : AMap α) (k : String) (v : α) (n : String) (h 
   rw [get?_insert]; simp [h]
 
 end AMap
+
+/-! ### the canonical form of the resolved constants -/
+
+theorem canonConsts_get? (exprs : AMap Ex) (res : AMap WireValue) (k : String) :
+    (canonConsts exprs res).get? k = if exprs.contains k then res.get? k else none := by
+  unfold canonConsts AMap.get? AMap.contains
+  induction exprs with
+  | nil => simp
+  | cons p rest ih =>
+    rw [List.filterMap_cons, List.any_cons]
+    cases hr : List.lookup p.1 res with
+    | none =>
+      simp only [AMap.get?, hr, Option.map_none]
+      rw [ih]
+      by_cases hk : p.1 = k
+      · subst hk; simp [hr]
+      · have : (p.1 == k) = false := by simpa using hk
+        rw [this, Bool.false_or]
+    | some v =>
+      simp only [AMap.get?, hr, Option.map_some]
+      by_cases hk : p.1 = k
+      · subst hk
+        simp [List.lookup_cons, hr]
+      · have h1 : (p.1 == k) = false := by simpa using hk
+        have h2 : (k == p.1) = false := by simpa using (fun h => hk h.symm)
+        rw [List.lookup_cons, h2, h1, Bool.false_or]
+        exact ih
+
+/-- the canonical form is determined by the map's content alone -/
+theorem canonConsts_ext (exprs : AMap Ex) (r₁ r₂ : AMap WireValue) (h : ∀ k ∈ exprs.keys, r₁.get? k = r₂.get? k) :
+    canonConsts exprs r₁ = canonConsts exprs r₂ := by
+  unfold canonConsts
+  induction exprs with
+  | nil => rfl
+  | cons p rest ih =>
+    rw [List.filterMap_cons, List.filterMap_cons, h p.1 (by simp [AMap.keys]),
+      ih (fun k hk => h k (by simp only [AMap.keys, List.map_cons, List.mem_cons]; exact Or.inr hk))]
